@@ -1,22 +1,359 @@
-"""Models of the rdflib API surface pyjelly touches (filled in below)."""
+"""Models of the rdflib API surface pyjelly touches.
+
+Trusted facts (each is a statement about rdflib 7, not about pyjelly):
+* URIRef / BNode are str subclasses; their constructors are idempotent; str(term) is the raw string;
+  terms of different classes never compare equal.
+* Literal(lex, lang=, datatype=) stores the three components; str(literal) is the lexical form;
+  .language / .datatype return them (datatype as URIRef or None).  Lexical normalisation by rdflib
+  is not modelled (C02 says so).
+* Graph: ordered set of triples with an identifier; iteration yields its triples; namespaces()
+  yields (prefix, URIRef) pairs in binding order; bind() adds/replaces.
+* Dataset is a Graph subclass; get_context(id) returns the context with that identifier, creating
+  and registering it on first use; graphs() yields registered contexts in registration order and the
+  default graph last if it was never registered; quads() yields (s, p, o, context identifier);
+  add((s,p,o,ctx)) adds to that context.  Real store iteration order is unspecified; the model's
+  order is one legal order.
+"""
 from __future__ import annotations
 
 from typing import Any
 
 from .interp import MISSING
+from .values import ADict, AIter, AList, Atom, ClassInfo, ExtMethod, ExtObj, ExtRef, Obj, SStr, Unknown, fresh_unknown, is_strlike, sstr
+
+DEFAULT_GRAPH_IRI = "urn:x-rdflib:default"
+TERM_KINDS = ("rdflib.URIRef", "rdflib.BNode", "rdflib.Literal")
+GRAPH_KINDS = ("rdflib.Graph", "rdflib.Dataset")
+
+_SUBCLASS = {
+    "rdflib.URIRef": {"rdflib.URIRef", "rdflib.Node", "rdflib.term.Identifier", "rdflib.IdentifiedNode", "builtins.str"},
+    "rdflib.BNode": {"rdflib.BNode", "rdflib.Node", "rdflib.term.Identifier", "rdflib.IdentifiedNode", "builtins.str"},
+    "rdflib.Literal": {"rdflib.Literal", "rdflib.Node", "rdflib.term.Identifier", "builtins.str"},
+    "rdflib.Graph": {"rdflib.Graph", "rdflib.Node"},
+    "rdflib.Dataset": {"rdflib.Dataset", "rdflib.ConjunctiveGraph", "rdflib.Graph", "rdflib.Node"},
+    "rdflib.QuotedGraph": {"rdflib.QuotedGraph", "rdflib.Graph", "rdflib.Node"},
+}
 
 
-def call(interp, name, args, kwargs):
+def uri(value: Any) -> ExtObj:
+    return ExtObj("rdflib.URIRef", {"value": value})
+
+
+def bnode(value: Any) -> ExtObj:
+    return ExtObj("rdflib.BNode", {"value": value})
+
+
+def literal(lex: Any, language: Any = None, datatype: Any = None) -> ExtObj:
+    return ExtObj("rdflib.Literal", {"lex": lex, "language": language, "datatype": datatype})
+
+
+def new_graph(interp, identifier: Any = None, store: Any = None) -> ExtObj:
+    if store is None or not isinstance(store, ExtObj):
+        store = ExtObj("rdflib.Store", {"graphs": []})
+    if identifier is None:
+        identifier = bnode(sstr(Atom(f"auto-graph-id", nosep=True)))
+    # one context per (store, identifier)
+    for g in store.attrs["graphs"]:
+        if interp.truth(interp.eq(g.attrs["identifier"], identifier), "graph-id"):
+            return ExtObj("rdflib.Graph", {"identifier": identifier, "store": store, "data": g.attrs["data"], "ns": store.attrs.setdefault("ns", AList([]))})
+    data = AList([])
+    g = ExtObj("rdflib.Graph", {"identifier": identifier, "store": store, "data": data, "ns": store.attrs.setdefault("ns", AList([]))})
+    return g
+
+
+def _register(store: ExtObj, g: ExtObj) -> None:
+    if not any(x.attrs["data"] is g.attrs["data"] for x in store.attrs["graphs"]):
+        store.attrs["graphs"].append(g)
+
+
+def new_dataset(interp, store: Any = None) -> ExtObj:
+    if store is None or not isinstance(store, ExtObj):
+        store = ExtObj("rdflib.Store", {"graphs": []})
+    default = new_graph(interp, uri(DEFAULT_GRAPH_IRI), store)
+    return ExtObj("rdflib.Dataset", {"identifier": uri(DEFAULT_GRAPH_IRI), "store": store, "default": default, "ns": store.attrs.setdefault("ns", AList([])), "data": default.attrs["data"]})
+
+
+def _to_strval(interp, x: Any) -> Any:
+    if isinstance(x, ExtObj) and x.kind in ("rdflib.URIRef", "rdflib.BNode"):
+        return x.attrs["value"]
+    if isinstance(x, ExtObj) and x.kind == "rdflib.Literal":
+        return x.attrs["lex"]
+    if is_strlike(x):
+        return x
+    if isinstance(x, Unknown):
+        return sstr(Atom(f"str({x.hint or x.key})", nonempty=None))
+    return interp.models.to_str(interp, x)
+
+
+def call(interp, name: str, args: list, kwargs: dict) -> Any:
+    if name == "rdflib.URIRef":
+        interp.emit("rdflib_ctor", cls="URIRef", arg=args[0] if args else None)
+        return uri(_to_strval(interp, args[0] if args else kwargs.get("value", "")))
+    if name == "rdflib.BNode":
+        interp.emit("rdflib_ctor", cls="BNode", arg=args[0] if args else None)
+        if not args or args[0] is None:
+            return bnode(sstr(Atom("fresh-bnode", nosep=True)))
+        return bnode(_to_strval(interp, args[0]))
+    if name == "rdflib.Literal":
+        lex = args[0] if args else kwargs.get("lexical_or_value")
+        lang = kwargs.get("lang", args[1] if len(args) > 1 else None)
+        dt = kwargs.get("datatype", args[2] if len(args) > 2 else None)
+        interp.emit("rdflib_ctor", cls="Literal", arg=lex)
+        if lang is not None and dt is not None and interp.truth(lang, "lit-lang") and interp.truth(dt, "lit-dt"):
+            raise interp.exc("TypeError", "A Literal can only have one of lang or datatype")
+        if dt is not None and not (isinstance(dt, ExtObj) and dt.kind == "rdflib.URIRef"):
+            dt = uri(_to_strval(interp, dt))
+        if isinstance(lex, ExtObj) and lex.kind == "rdflib.Literal":
+            if lang is None and dt is None:
+                return literal(lex.attrs["lex"], lex.attrs["language"], lex.attrs["datatype"])
+            lex = lex.attrs["lex"]
+        if lang is not None and not interp.truth(lang, "lit-lang"):
+            lang = None
+        return literal(_to_strval(interp, lex) if not is_strlike(lex) else lex, lang, dt)
+    if name == "rdflib.Graph":
+        interp.emit("rdflib_ctor", cls="Graph")
+        return new_graph(interp, kwargs.get("identifier", args[1] if len(args) > 1 else None), kwargs.get("store", args[0] if args else None))
+    if name == "rdflib.Dataset":
+        interp.emit("rdflib_ctor", cls="Dataset")
+        return new_dataset(interp, kwargs.get("store", args[0] if args else None))
+    if name == "rdflib.QuotedGraph":
+        return ExtObj("rdflib.QuotedGraph", {})
     return MISSING
 
 
-def constant(interp, full):
+def constant(interp, full: str) -> Any:
+    if full == "rdflib.DATASET_DEFAULT_GRAPH_ID":
+        return uri(DEFAULT_GRAPH_IRI)
     return MISSING
 
 
-def str_of(interp, v):
+def str_of(interp, v: ExtObj) -> Any:
+    if v.kind in ("rdflib.URIRef", "rdflib.BNode"):
+        return v.attrs["value"]
+    if v.kind == "rdflib.Literal":
+        return v.attrs["lex"]
     return MISSING
 
 
-def len_of(interp, v):
+def len_of(interp, v: ExtObj) -> Any:
+    if v.kind == "rdflib.Graph":
+        return len(v.attrs["data"].items)
+    if v.kind == "rdflib.Dataset":
+        return sum(len(g.attrs["data"].items) for g in _contexts(interp, v))
+    if v.kind in TERM_KINDS:
+        return Unknown(("len", v.uid), "len(term)")
     return MISSING
+
+
+def truth(interp, v: ExtObj, tag: str) -> bool:
+    if v.kind in TERM_KINDS:
+        return interp.truth(str_of(interp, v), tag)
+    if v.kind in GRAPH_KINDS:
+        return interp.truth(len_of(interp, v), tag)
+    return True
+
+
+def eq(interp, a: Any, b: Any) -> Any:
+    ka = a.kind if isinstance(a, ExtObj) else None
+    kb = b.kind if isinstance(b, ExtObj) else None
+    if ka in TERM_KINDS or kb in TERM_KINDS:
+        if ka != kb:
+            return False
+        if ka == "rdflib.Literal":
+            r1 = interp.eq(a.attrs["lex"], b.attrs["lex"])
+            if r1 is False:
+                return False
+            r2 = interp.eq(a.attrs["language"], b.attrs["language"])
+            if r2 is False:
+                return False
+            r3 = interp.eq(a.attrs["datatype"], b.attrs["datatype"])
+            if r3 is False:
+                return False
+            for r in (r1, r2, r3):
+                if r is not True and not interp.truth(r, "lit-eq"):
+                    return False
+            return True
+        return interp.eq(a.attrs["value"], b.attrs["value"])
+    if ka in GRAPH_KINDS and kb in GRAPH_KINDS:
+        return a.attrs["data"] is b.attrs["data"]
+    return a is b
+
+
+def isinstance_(interp, v: Any, n: str) -> Any:
+    if isinstance(v, ExtObj) and v.kind in _SUBCLASS:
+        return n in _SUBCLASS[v.kind]
+    if isinstance(v, Obj):
+        return any(isinstance(c, ExtRef) and c.name == n for c in v.cls.mro)
+    return False
+
+
+def getattr_(interp, o: ExtObj, name: str) -> Any:
+    k = o.kind
+    if k == "rdflib.Literal":
+        if name == "language":
+            return o.attrs["language"]
+        if name == "datatype":
+            return o.attrs["datatype"]
+        if name == "value":
+            return o.attrs["lex"]
+    if k in TERM_KINDS:
+        if name in ("n3", "toPython", "__str__", "lower", "upper", "startswith", "endswith", "rpartition", "partition", "removeprefix"):
+            if name in ("n3", "toPython", "__str__"):
+                return ExtMethod(o, k, name)
+            return ExtMethod(str_of(interp, o), "str", name)
+        raise interp.exc("AttributeError", f"'{k}' object has no attribute '{name}'")
+    if k in GRAPH_KINDS:
+        if name == "identifier":
+            return o.attrs["identifier"]
+        if name == "store":
+            return o.attrs["store"]
+        if name in ("default_graph", "default_context") and k == "rdflib.Dataset":
+            return o.attrs["default"]
+        return ExtMethod(o, k, name)
+    if k == "rdflib.Store":
+        return ExtMethod(o, k, name)
+    if k == "rdflib.InputSource":
+        return ExtMethod(o, k, name)
+    if name in o.attrs:
+        return o.attrs[name]
+    raise interp.exc("AttributeError", f"'{k}' object has no attribute '{name}'")
+
+
+def _contexts(interp, ds: ExtObj) -> list[ExtObj]:
+    store = ds.attrs["store"]
+    out = list(store.attrs["graphs"])
+    if not any(x.attrs["data"] is ds.attrs["default"].attrs["data"] for x in out):
+        out.append(ds.attrs["default"])
+    return out
+
+
+def _add_triple(interp, g: ExtObj, t: Any) -> None:
+    items = interp.unpack_values(t)
+    if len(items) != 3:
+        raise interp.exc("ValueError", f"Graph.add expects a triple, got {len(items)} items")
+    tup = tuple(items)
+    for x in g.attrs["data"].items:
+        if interp.truth(interp.eq(x, tup), "graph-dedup"):
+            return
+    interp.emit("mutate", target=g.attrs["data"], op="graph.add", shared=g.shared and interp.init_depth == 0)
+    g.attrs["data"].items.append(tup)
+    _register(g.attrs["store"], g)
+
+
+def method(interp, em: ExtMethod, args: list, kwargs: dict) -> Any:
+    o, name, k = em.recv, em.name, em.kind
+    if k.startswith("rdflib.plugin_init:"):
+        return plugin_init(interp, em, args, kwargs)
+    if k in TERM_KINDS:
+        if name in ("toPython", "__str__"):
+            return str_of(interp, o)
+        if name == "n3":
+            return sstr(Atom("n3", nonempty=True))
+    if k in GRAPH_KINDS:
+        if name == "namespaces":
+            return AIter(iter(list(o.attrs["ns"].items)), "namespaces")
+        if name == "bind":
+            prefix, ns = args[0], args[1]
+            interp.emit("bind", graph=o, prefix=prefix, ns=ns)
+            nsv = ns if (isinstance(ns, ExtObj) and ns.kind == "rdflib.URIRef") else uri(_to_strval(interp, ns))
+            lst = o.attrs["ns"].items
+            for i, (p, _n) in enumerate(lst):
+                if interp.truth(interp.eq(p, prefix), "bind-prefix"):
+                    lst[i] = (prefix, nsv)
+                    return None
+            lst.append((prefix, nsv))
+            return None
+        if name == "add":
+            items = interp.unpack_values(args[0])
+            if k == "rdflib.Dataset":
+                if len(items) == 4:
+                    ctx = items[3]
+                    if isinstance(ctx, ExtObj) and ctx.kind in GRAPH_KINDS:
+                        tgt = ctx
+                    else:
+                        tgt = _get_context(interp, o, ctx)
+                    _add_triple(interp, tgt, tuple(items[:3]))
+                    return o
+                _add_triple(interp, o.attrs["default"], tuple(items))
+                return o
+            if len(items) != 3:
+                raise interp.exc("ValueError", "Graph.add expects a triple")
+            _add_triple(interp, o, tuple(items))
+            return o
+        if name in ("get_context", "graph") and k == "rdflib.Dataset":
+            ident = args[0] if args else kwargs.get("identifier")
+            return _get_context(interp, o, ident)
+        if name in ("graphs", "contexts") and k == "rdflib.Dataset":
+            return AIter(iter(_contexts(interp, o)), "graphs")
+        if name == "quads" and k == "rdflib.Dataset":
+            out = []
+            for g in _contexts(interp, o):
+                for (s, p, ob) in g.attrs["data"].items:
+                    out.append((s, p, ob, g.attrs["identifier"]))
+            return AIter(iter(out), "quads")
+        if name == "triples":
+            return AIter(iter(list(o.attrs["data"].items)), "triples")
+        if name == "__len__":
+            return len_of(interp, o)
+        if name == "__iter__":
+            return iter_(interp, o)
+        if name == "serialize" or name == "parse":
+            raise interp.unsupported(f"rdflib plugin dispatch Graph.{name} (analyse the plugin class directly)")
+    if k == "rdflib.InputSource" and name == "getByteStream":
+        return o.attrs.get("stream")
+    raise interp.unsupported(f"rdflib method {k}.{name}")
+
+
+def _get_context(interp, ds: ExtObj, ident: Any) -> ExtObj:
+    if isinstance(ident, ExtObj) and ident.kind in GRAPH_KINDS:
+        ident = ident.attrs["identifier"]
+    if is_strlike(ident):
+        ident = uri(ident)
+    if ident is None:
+        ident = bnode(sstr(Atom("fresh-graph", nosep=True)))
+    g = new_graph(interp, ident, ds.attrs["store"])
+    _register(ds.attrs["store"], g)
+    return g
+
+
+def iter_(interp, v: ExtObj) -> Any:
+    if v.kind == "rdflib.Graph":
+        return AIter(iter(list(v.attrs["data"].items)), "graph")
+    if v.kind == "rdflib.Dataset":
+        return method(interp, ExtMethod(v, v.kind, "quads"), [], {})
+    if v.kind in TERM_KINDS:
+        return AIter(iter([fresh_unknown("char")]), "str")
+    raise interp.unsupported(f"iteration over {v.kind}")
+
+
+def getitem(interp, base: ExtObj, idx: Any) -> Any:
+    raise interp.unsupported(f"subscript of {base.kind}")
+
+
+def contains(interp, container: ExtObj, item: Any) -> Any:
+    if container.kind == "rdflib.Graph":
+        return any(interp.truth(interp.eq(x, item), "in-graph") for x in container.attrs["data"].items)
+    raise interp.unsupported(f"membership in {container.kind}")
+
+
+# -- repo classes deriving from rdflib classes (serializer / parser plugins)
+
+
+def ext_init(interp, obj: Obj, owner: ExtRef, args: list, kwargs: dict) -> None:
+    if owner.name == "rdflib.Serializer":
+        obj.attrs["store"] = args[0] if args else kwargs.get("store")
+        return
+    if owner.name == "rdflib.Parser":
+        return
+    return
+
+
+def ext_base_attr(interp, obj: Obj, eb: ExtRef, name: str) -> Any:
+    if eb.name in ("rdflib.Serializer", "rdflib.Parser") and name == "__init__":
+        return ExtMethod(obj, "rdflib.plugin_init:" + eb.name, "__init__")
+    return MISSING
+
+
+def plugin_init(interp, em: ExtMethod, args: list, kwargs: dict) -> None:
+    if em.kind.endswith("rdflib.Serializer"):
+        em.recv.attrs["store"] = args[0] if args else kwargs.get("store")
